@@ -25,6 +25,7 @@ type monC18 struct {
 	Owner    []int
 	NPlain   []int     // per marker: number of data messages / plaintext messages that carried it unmarked
 	NResent  []int     // per marker: number of data messages that carried it with the resent prefix
+	Refused  []int     // markers that Send turned down (finished state): they must never reach the wire
 	Disc     [][]byte  // disconnect messages put on the wire
 	DiscSSID [][8]byte // session they belong to
 	Steps    int
@@ -82,6 +83,9 @@ func verifC18Sys(id string, seed int64) *verifSys {
 				continue
 			}
 			info := verifOpenOwn(w.P[i].C, o)
+			if verifTraceOn {
+				fmt.Printf("   ledger: data message by %s opened=%v plain=%q refused=%v\n", w.P[i].Name, info.OK, verifTrunc(info.Plain), m.Refused)
+			}
 			if !info.OK {
 				verifCount("c18_data_messages_not_opened", 1)
 				continue
@@ -93,6 +97,11 @@ func verifC18Sys(id string, seed int64) *verifSys {
 			if k := findMarker(m, info.Plain); k >= 0 {
 				m.NPlain[k]++
 				released = append(released, info.Plain)
+				for _, rk := range m.Refused {
+					if rk == k {
+						fs = append(fs, verifFinding{"C18:refused-text-transmitted", fmt.Sprintf("text %q, which Send refused (peer had ended the session), was put on the wire later by %s", info.Plain, w.P[i].Name)})
+					}
+				}
 				if m.NPlain[k] > 1 {
 					fs = append(fs, verifFinding{"C18:transmitted-twice", fmt.Sprintf("text %q was put on the wire %d times (by %s)", info.Plain, m.NPlain[k], w.P[i].Name)})
 				}
@@ -276,6 +285,8 @@ func verifC18Sys(id string, seed int64) *verifSys {
 			case m.Fin[e.I]:
 				if r.Err == "" {
 					add("send-accepted-when-finished", "Send succeeded although the peer ended the session and End() was not called")
+				} else {
+					m.Refused = append(m.Refused, mk)
 				}
 				for _, o := range r.Out {
 					if !bytes.HasPrefix(o, errorMarker) {
